@@ -15,20 +15,32 @@ Theorem C07_parse_print : forall name kids,
 Proof. exact parse_print_dataset. Qed.
 Print Assumptions C07_parse_print.
 
-(* the declared variable: kinds, names, order, element types are kept; shapes and dimension names are the printed ones *)
-Theorem C07_declared_named : forall seq ty n d0 dims shape,
-  let z := combine (map quote (d0 :: dims)) (skipn seq shape) in
-  declared seq (TBase ty n (d0 :: dims) shape) = TBase ty n (map fst z) (map snd z).
+(* the declared variable: kinds, names, order, element types are kept; shapes and dimension names are the printed ones.
+   Dimension names are printed when they COVER the shape (as many names as axes); a variable whose names do not cover its shape
+   (a foreign DDS that names only some of the dimensions parses to one) is declared like a variable without names. *)
+Theorem C07_declared_named : forall seq ty n dims shape,
+  dims <> [] -> List.length dims = List.length (skipn seq shape) ->
+  let z := combine (map quote dims) (skipn seq shape) in
+  declared seq (TBase ty n dims shape) = TBase ty n (map fst z) (map snd z).
 Proof. exact declared_base_named. Qed.
-Theorem C07_declared_rank1 : forall seq ty n shape m,
-  skipn seq shape = [m] -> declared seq (TBase ty n [] shape) = TBase ty n [n] [m].
+Print Assumptions C07_declared_named.
+Theorem C07_declared_rank1 : forall seq ty n dims shape m,
+  dims_cover dims (skipn seq shape) = false ->
+  skipn seq shape = [m] -> declared seq (TBase ty n dims shape) = TBase ty n [n] [m].
 Proof. exact declared_base_rank1. Qed.
 Print Assumptions C07_declared_rank1.
-Theorem C07_declared_anonymous : forall seq ty n shape,
-  List.length (skipn seq shape) <> 1 -> declared seq (TBase ty n [] shape) = TBase ty n [] (skipn seq shape).
+Theorem C07_declared_anonymous : forall seq ty n dims shape,
+  dims_cover dims (skipn seq shape) = false ->
+  List.length (skipn seq shape) <> 1 -> declared seq (TBase ty n dims shape) = TBase ty n [] (skipn seq shape).
 Proof. exact declared_base_anon. Qed.
 Print Assumptions C07_declared_anonymous.
-Print Assumptions C07_declared_named.
+(* whatever the dimension names a variable carries (none, as many as axes, fewer, more): the text declares its WHOLE shape
+   (below the enclosing Sequences) - no axis is lost in print + parse - and either no names or one per axis *)
+Theorem C07_declared_shape_whole : forall seq ty n dims shape,
+  exists dims', declared seq (TBase ty n dims shape) = TBase ty n dims' (skipn seq shape) /\
+                (dims' = [] \/ List.length dims' = List.length (skipn seq shape)).
+Proof. exact declared_shape_whole. Qed.
+Print Assumptions C07_declared_shape_whole.
 
 (* Printing the parsed dataset reproduces the text exactly - for datasets whose Sequence members are scalars
    (flatb: below k > 0 Sequences a variable has at most the k record axes). *)
